@@ -85,7 +85,7 @@ def run_one(item, suite):
         good = True
         for p in item['props']:
             env = dict(ENV, VERIF_REPO=work, VERIF_EVIDENCE_DIR=ev)
-            rc, out = sh('%s/bin/govc check %s quick' % (ROOT, p), cwd=ROOT, env=env)
+            rc, out = sh('%s check %s quick' % (GOVC, p), cwd=ROOT, env=env)
             viol = [l for l in out.splitlines() if l.startswith('VIOLATION')]
             res['checks'][p] = dict(exit=rc, violations=len(viol), first=(viol[0][:260] if viol else ''), tail=out.strip().splitlines()[-1][:200] if out.strip() else '')
             if item['kind'] == 'break':
@@ -100,6 +100,17 @@ def run_one(item, suite):
         res['seconds'] = round(time.time() - t0, 1)
 
 def main():
+    global GOVC
+    # run a private copy of the engine binary, so that it can be rebuilt while a long self-test is under way
+    GOVC = os.path.join(TMP, 'selftest_govc_%d' % os.getpid())
+    shutil.copy2(os.path.join(ROOT, 'bin', 'govc'), GOVC)
+    ENV['VERIF_ROOT'] = ROOT
+    try:
+        return main2()
+    finally:
+        os.remove(GOVC)
+
+def main2():
     ap = argparse.ArgumentParser()
     ap.add_argument('-j', type=int, default=3)
     ap.add_argument('--only', default='')
